@@ -15,7 +15,8 @@
  *        producers write, the single consumer calls read until it has seen <reads> items.
  *   fine 0|1      (abq/dbuf) register the queue's data fields too: every access becomes an
  *                 event (used for the lock-coverage check; no model replay at this granularity)
- *   sched random <seed> | pct <seed> <depth> | replay <tokens...>
+ *   sched random <seed> | pct <seed> <depth> | replay <tokens...> | prefix <tokens...>
+ *                 (prefix: replay, then continue non-preemptively; prints "#enabled <mask per step>")
  *   spurious <cas_permille> <cv_permille>
  *   run           -> schedule, events, [state lines], end, outcome
  */
@@ -47,7 +48,6 @@ static payload_t *P;                    /* registered: "payload" */
 /* harness-side observation (not registered: ghost) */
 static int g_delivered[MAXMSG * 2], g_ndelivered;
 static int g_full, g_ok, g_bad;
-static int g_lock_ghost;                /* serialises the ghost lists of abq consumers */
 
 static int id_of(void *p)
 {
@@ -310,7 +310,7 @@ static void vh_op(int argc, char **argv)
 	if (!strcmp(argv[0], "sched") && argc >= 2) {
 		if (!strcmp(argv[1], "random") && argc == 3) { g_pol = 0; g_seed = vh_ull(argv[2]); }
 		else if (!strcmp(argv[1], "pct") && argc == 4) { g_pol = 1; g_seed = vh_ull(argv[2]); g_depth = atoi(argv[3]); }
-		else if (!strcmp(argv[1], "replay")) { g_pol = 2; g_replay[0] = 0; size_t o = 0;
+		else if (!strcmp(argv[1], "replay") || !strcmp(argv[1], "prefix")) { g_pol = !strcmp(argv[1], "prefix") ? 3 : 2; g_replay[0] = 0; size_t o = 0;
 			for (int i = 2; i < argc && o + 16 < sizeof g_replay; i++) o += snprintf(g_replay + o, sizeof g_replay - o, "%s ", argv[i]); }
 		else { printf("bad-op\n"); return; }
 		printf("ok\n");
@@ -324,6 +324,7 @@ static void vh_op(int argc, char **argv)
 		if (rc != 0) { printf("init-failed %d\n", rc); return; }
 		if (g_pol == 0) vs_policy_random(g_seed);
 		else if (g_pol == 1) vs_policy_pct(g_seed, g_depth);
+		else if (g_pol == 3) { vs_policy_prefix(g_replay); vs_trace_enabled(1); }
 		else vs_policy_replay(g_replay);
 		vs_set_spurious(g_sp_cas, g_sp_cv);
 		vs_set_max_steps(6000);
